@@ -683,7 +683,8 @@ def monitorCall (cfg : Cfg) (cmp : String) (m : MonSt) (name : String) (ln : Nat
       | _ => none
     let erasedId : List Nat := match op with | ["erase", v] => (v.toNat?.map ([·])).getD [] | _ => []
     let gone := stB.filter fun id => !stA.contains id
-    let unjust := gone.filter fun id => !ackedIds.contains id && !erasedId.contains id && !rel.contains id
+    -- (a release announced while closing a persistent session justifies nothing: such a close keeps the store)
+    let unjust := gone.filter fun id => !ackedIds.contains id && !erasedId.contains id && (!rel.contains id || (op = ["closed"] && m.nsGhost))
     let r := if !m.prev.isEmpty ∧ !unjust.isEmpty ∧ !newSession ∧ !(op = ["closed"] ∧ !m.nsGhost) then
         violStore "stored_packet_vanished" r s!"{here}: stored packets {unjust} left the store without matching acknowledgement, erase, oversize drop or new session: {evS}" else r
     let r := match op with
